@@ -126,7 +126,26 @@ func collect(v *Verifier, p string, only string) ([]*FuncReport, []*Obligation) 
 			}
 		}
 	}
-	for _, l := range v.db.Lemmas {
+	// predicates with an `also` part: the consequence must follow from the body (checked with every property)
+	var alsoLemmas []*Lemma
+	var pnames []string
+	for n := range v.db.Preds {
+		pnames = append(pnames, n)
+	}
+	sort.Strings(pnames)
+	for _, n := range pnames {
+		pr := v.db.Preds[n]
+		if pr.Also == nil {
+			continue
+		}
+		props := []string{}
+		if p != "" {
+			props = []string{p}
+		}
+		alsoLemmas = append(alsoLemmas, &Lemma{Name: "pred:" + n + "/also", PkgPath: pr.PkgPath, Params: pr.Params, Mode: ModeInt, Props: props,
+			Requires: []*Clause{{Text: n + " body", Expr: pr.Body}}, Ensures: []*Clause{{Text: n + " also-part", Expr: pr.Also}}})
+	}
+	for _, l := range append(alsoLemmas, v.db.Lemmas...) {
 		if only != "" && !strings.Contains(l.Name, only) {
 			continue
 		}
